@@ -175,6 +175,8 @@ def generate():
     m = re.search(r"auto\s+ret\s*=\s*invoke\(::std::move\(function\)\)\s*;\s*if\s*\((.*?)\)\s*\{\s*(.*?)\}\s*return\s+future\s*;", ex, re.S)
     if not m:
         raise ExtractError("Executor::execute: failure branch has a new shape")
+    items.append(str_list_def("stmts_execute", _stmts(ex)))
+    items.append(str_list_def("stmts_submit", _stmts(strip_comments(function_body(hpp, r"Executor::submit\s*\(", 0)))))
     items.append(str_def("executeFailCond", _norm(m.group(1))))
     items.append(str_def("executeFailAction", _norm(m.group(2))))
     bc = _cpp_text(BASIC_CPP)
